@@ -112,6 +112,9 @@ def run(F, S, R, tier):
         R, "mustcall/rollback-pair", rb, ST + "detach_block$", [r"ckb_store::cell::detach_block_cell$"], S, min_sites=1,
         what="every detach_block is completed by detach_block_cell"))
 
+    R.guard("loop/rollback-all", lambda: K.loop_over_all(
+        R, "loop/rollback-all", rb, ST + "detach_block$", [r"call:.*ForkChanges::detached_blocks$"], what="every detached block is undone"))
+
     # ---- 3. rollback walks detached blocks in reverse; attach loops do not
     def reverse():
         key = "prov/reverse"
